@@ -10,6 +10,7 @@
 
 pub mod boxedc;
 pub mod cgen;
+mod zdiv;
 pub mod fixed;
 
 use vmodel::*;
@@ -59,5 +60,6 @@ fn subchecks(_ctx: &Ctx) -> Vec<SubCheck> {
     v.push(SubCheck::new("boxed/linear/1..=20", 600000, boxedc::linear_case).tape(200).thorough(10));
     v.push(SubCheck::new("boxed/special/1..=20", 600000, boxedc::special_case).tape(200).thorough(10));
     v.push(SubCheck::new("boxed/mul+halve/1..=20", 400000, boxedc::mul_case).tape(200).thorough(10));
+    v.extend(zdiv::subchecks());
     v
 }
